@@ -26,7 +26,8 @@ class AMachine(Machine):
     stub_components = ["host actors (debugger, tuner, host writer, fault injector, restarter) scripted by the seeded schedule",
                        "reference = the same engine in its most conservative schedule (python backend, 1 instruction per block, cold cache)"]
     assumptions = ["LLVM backend not available in this sandbox (no llvmlite): python and gcc backends only",
-                   "x86_32 (80% of the runs) and arml (20%) workload generators; semantics errors common to every schedule are out of scope (C18/C19)",
+                   "guest workload generators: x86_32 (majority), x86_64, arml/armb, aarch64l, mips32l/mips32b (shares per check in simkit/a_machines.py); "
+                   "ppc32, msp430, mep, x86_16 guests are not generated; semantics errors common to every schedule and backend are out of scope (C18/C19)",
                    "gcc-backend runs draw their program from a pool of %d per batch so that the private on-disk block cache warms up"]
     gcc_pool = 6
     gcc_fresh = 0.5            # share of the gcc runs that get a program of their own (with long blocks)
